@@ -1672,9 +1672,15 @@ def optimal_cost_value(variable: Variable, mode: str):
     """
     if hasattr(variable, "cost_for_val"):
         opt_func = min if mode == "min" else max
-        best_cost, best_value = opt_func(
+        costs_values = [
             (variable.cost_for_val(value), value) for value in variable.domain
-        )
+        ]
+        try:
+            best_cost, best_value = opt_func(costs_values)
+        except TypeError:
+            # Equal costs for values that cannot be compared with each other
+            # (domain mixing value types): only compare the costs.
+            best_cost, best_value = opt_func(costs_values, key=lambda cv: cv[0])
     else:
         best_value, best_cost = random.choice(variable.domain), None
 
